@@ -42,7 +42,7 @@ macro_rules! c18_set {
             }
 
             #[kani::proof]
-            #[kani::unwind(12)]
+            #[kani::unwind(300)]
             pub fn c18_q_add_bit() {
                 let calls = Cell::new(0);
                 let mut x = parts(&calls);
@@ -62,7 +62,7 @@ macro_rules! c18_set {
             }
 
             #[kani::proof]
-            #[kani::unwind(12)]
+            #[kani::unwind(300)]
             pub fn c18_q_add_word() {
                 let calls = Cell::new(0);
                 let mut x = parts(&calls);
@@ -82,7 +82,7 @@ macro_rules! c18_set {
             }
 
             #[kani::proof]
-            #[kani::unwind(12)]
+            #[kani::unwind(300)]
             pub fn c18_q_add_byte() {
                 let calls = Cell::new(0);
                 let mut x = parts(&calls);
@@ -97,7 +97,7 @@ macro_rules! c18_set {
             }
 
             #[kani::proof]
-            #[kani::unwind(12)]
+            #[kani::unwind(300)]
             pub fn c18_q_process_keyevent() {
                 let calls = Cell::new(0);
                 let mut x = parts(&calls);
@@ -120,7 +120,7 @@ macro_rules! c18_set {
             }
 
             #[kani::proof]
-            #[kani::unwind(12)]
+            #[kani::unwind(300)]
             pub fn c18_q_clear_and_ctrl() {
                 let calls = Cell::new(0);
                 let mut x = parts(&calls);
@@ -156,7 +156,7 @@ macro_rules! c18_set {
             /// Thorough: three symbolic operations in a row from new(), public API only, against
             /// three separately driven stages.
             #[kani::proof]
-            #[kani::unwind(4)]
+            #[kani::unwind(300)]
             pub fn c18_t_three_ops() {
                 let calls = Cell::new(0);
                 let h = any_mode();
